@@ -49,7 +49,7 @@ def IPManager_findInList : List String := ["isExpired", "net.ParseIP", "net.Pars
 def IPManager_removeExpiredFromBlacklist : List String := ["mu.Lock", "mu.Unlock", "isExpired", "removeFromStorage"]
 def RateLimiter_AllowIP : List String := ["allow"]
 def RateLimiter_allow : List String := ["mu.RLock", "mu.RUnlock", "mu.Lock", "newTokenBucket", "mu.Unlock", "bucket.Take"]
-def ServerAuthHandler_HandleHandshake : List String := ["ipManager.IsAllowed", "bruteForceProtector.IsBanned", "rateLimiter.AllowIP", "handleFirstConnection", "cloudControl.GetClientConfig", "bruteForceProtector.RecordFailure", "handleChallengePhase1", "handleChallengePhase2"]
+def ServerAuthHandler_HandleHandshake : List String := ["ipManager.IsAllowed", "bruteForceProtector.IsBanned", "rateLimiter.AllowIP", "handleFirstConnection", "cloudControl.GetClientConfig", "bruteForceProtector.RecordFailure", "config.IsExpired", "handleChallengePhase1", "handleChallengePhase2"]
 def ServerAuthHandler_handleChallengePhase1 : List String := ["conn.SetPendingChallenge"]
 def ServerAuthHandler_handleChallengePhase2 : List String := ["conn.GetPendingChallenge", "bruteForceProtector.RecordFailure", "conn.ClearPendingChallenge", "secretKeyMgr.VerifyResponse", "bruteForceProtector.RecordFailure", "bruteForceProtector.RecordSuccess", "conn.SetAuthenticated"]
 def ServerAuthHandler_handleFirstConnection : List String := ["cloudControl.GenerateAnonymousCredentials", "bruteForceProtector.RecordFailure", "bruteForceProtector.RecordSuccess", "conn.SetAuthenticated"]
